@@ -33,15 +33,16 @@ func confLoadChild(path string) {
 }
 
 type c18Cfg struct {
-	Auth      []string
-	TLS       string // disable | enable
-	Selection string
-	QueryKey  bool
-	Keytab    bool
-	TokenAuth bool
-	Hosts     int
-	Keys      map[string]string // config key -> value ("" = absent)
-	UserToken bool
+	AuthAbsent bool // Server.Authentication not given at all: the documented default (openid) applies
+	Auth       []string
+	TLS        string // disable | enable
+	Selection  string
+	QueryKey   bool
+	Keytab     bool
+	TokenAuth  bool
+	Hosts      int
+	Keys       map[string]string // config key -> value ("" = absent)
+	UserToken  bool
 }
 
 var c18KeyNames = []string{"Security.PAATokenSigningKey", "Security.PAATokenEncryptionKey", "Security.UserTokenEncryptionKey", "Server.SessionKey", "Server.SessionEncryptionKey"}
@@ -92,7 +93,9 @@ func c18Settings(c c18Cfg, port int, idpURL string) [][2]string {
 	add := func(k, v string) { s = append(s, [2]string{k, v}) }
 	add("Server.Port", strconv.Itoa(port))
 	add("Server.GatewayAddress", "gw.example:"+strconv.Itoa(port))
-	add("Server.Authentication", strings.Join(c.Auth, " "))
+	if !c.AuthAbsent {
+		add("Server.Authentication", strings.Join(c.Auth, " "))
+	}
 	if c.TLS == "disable" {
 		add("Server.Tls", "disable")
 	} else {
@@ -236,7 +239,7 @@ func c18Load(yaml string, env []string) (conf *config.Configuration, refused boo
 }
 
 func c18(env *Env, rep *Report) {
-	rep.Rule = "(L1) the real config.Load in a child process for the full product 16 authentication subsets (those with local also spelled with its alias basic) x TLS {disable, enabled} x host selection {roundrobin, signed, unsigned, any} x query-token key {absent, present} x keytab {absent, present} x cookie auth {on, off} x source {file, RDPGW_ environment, both with the file saying something else}: refusal exactly for the reference's refusal list (except the no-hosts rule, which main() enforces), and the effective settings equal the given ones; plus every combination of 5 key settings x {absent, 1, 31, 32 characters} (quick: each key alone and all pairs; thorough: the full 4^5 block) loaded twice: a 32-character key is kept, an absent or shorter one is replaced by a 32-character value that differs between the two loads; the user-token signing key likewise. " +
+	rep.Rule = "(L1) the real config.Load in a child process for the full product 16 authentication subsets (those with local also spelled with its alias basic; plus authentication not configured at all, where the documented default openid applies) x TLS {disable, enabled} x host selection {roundrobin, signed, unsigned, any} x query-token key {absent, present} x keytab {absent, present} x cookie auth {on, off} x source {file, RDPGW_ environment, both with the file saying something else}: refusal exactly for the reference's refusal list (except the no-hosts rule, which main() enforces), and the effective settings equal the given ones; plus every combination of 5 key settings x {absent, 1, 31, 32 characters} (quick: each key alone and all pairs; thorough: the full 4^5 block) loaded twice: a 32-character key is kept, an absent or shorter one is replaced by a 32-character value that differs between the two loads; the user-token signing key likewise. " +
 		"(L2) the real rdpgw binary started for authentication subsets x TLS x hosts {0,1} x {signed without key, signed with key, roundrobin} x cookie auth (quick: 96 starts, thorough: 384 + keytab dimension): refused => non-zero exit before listening, startable => listening socket. (L3) two real instances started with absent keys: a session cookie and an access token obtained from instance 1 through a real OpenID login are not accepted by instance 2 (and are accepted by instance 1). distinct_nontrivial = distinct configurations."
 	rep.Assumptions = append(rep.Assumptions, "documented capitalisation of configuration keys; environment names derived by the documented RDPGW_SECTION__KEY_NAME rule", "keys of 33 and more characters are outside the property",
 		"startup is observed within 20 s (exit status or accepting socket); ACME/auto TLS without certificate files is not started")
@@ -305,6 +308,34 @@ func c18(env *Env, rep *Report) {
 							}
 						}
 					}
+				}
+			}
+		}
+	}
+	// ---------------- L1: authentication not configured (default openid) x cookie auth x TLS x source
+	for _, ta := range []bool{true, false} {
+		for _, tlsm := range []string{"disable", "enable"} {
+			for _, src := range []string{"file", "env"} {
+				n++
+				if !env.mine(n) {
+					continue
+				}
+				distinct++
+				c := c18Cfg{AuthAbsent: true, Auth: []string{"openid"}, TLS: tlsm, Selection: "roundrobin", TokenAuth: ta, Hosts: 1}
+				yaml, ev := c18Render(c18Settings(c, 8443, idp.Issuer), src)
+				conf, refused, _ := c18Load(yaml, ev)
+				rep.add("executions", 1)
+				want, why := refStartable(c)
+				what := fmt.Sprintf("authentication not configured (default openid) tls=%s tokenauth=%v source=%s", tlsm, ta, src)
+				rep.outcome(fmt.Sprintf("L1 default-auth startable=%v refused=%v", want, refused))
+				if !want && !refused {
+					rep.violate("C18/unsafe-configuration-accepted-by-config-load/"+strings.ReplaceAll(why, " ", "-")+"/default-authentication", what+": "+why, map[string]any{"noreplay": true})
+				}
+				if want && refused {
+					rep.violate("C18/safe-configuration-refused/default-authentication", what, map[string]any{"noreplay": true})
+				}
+				if want && conf != nil && strings.Join(conf.Server.Authentication, " ") != "openid" {
+					rep.violate("C18/default-authentication-is-not-openid", fmt.Sprint(conf.Server.Authentication), map[string]any{"noreplay": true})
 				}
 			}
 		}
@@ -427,6 +458,9 @@ func c18(env *Env, rep *Report) {
 				}
 			}
 		}
+		for _, ta := range []bool{true, false} {
+			starts = append(starts, c18Cfg{AuthAbsent: true, Auth: []string{"openid"}, TLS: "disable", Selection: "roundrobin", TokenAuth: ta, Hosts: 1})
+		}
 		for _, c := range starts {
 			n++
 			if !env.mine(n) {
@@ -445,7 +479,7 @@ func c18(env *Env, rep *Report) {
 			}
 			rep.add("executions", 1)
 			want, why := refStartable(c)
-			what := fmt.Sprintf("auth=%v tls=%s selection=%s querykey=%v keytab=%v tokenauth=%v hosts=%d", c.Auth, c.TLS, c.Selection, c.QueryKey, c.Keytab, c.TokenAuth, c.Hosts)
+			what := fmt.Sprintf("auth=%v (absent=%v) tls=%s selection=%s querykey=%v keytab=%v tokenauth=%v hosts=%d", c.Auth, c.AuthAbsent, c.TLS, c.Selection, c.QueryKey, c.Keytab, c.TokenAuth, c.Hosts)
 			listening := g.Alive()
 			rep.outcome(fmt.Sprintf("L2 startable=%v listening=%v", want, listening))
 			switch {
